@@ -37,6 +37,104 @@ def _closure_reads(M: Model, cls: ClassInfo, fn: FuncInfo) -> Set[str]:
     return d.fn_reads(fn)
 
 
+ABS, REL = 'absolute', 'relative'
+
+
+def affine_sums(fn: FuncInfo):
+    """(BinOp node, left kind, right kind) for every `+` whose two operands are both ABSOLUTE positions.
+
+    Positions form an affine space: `<obj>.pos` (and arrays / elements built from it) is a point in the plane, a difference
+    of two points or a layout offset is a vector.  point + vector is a point, point - point is a vector, but point + point
+    counts the origin twice (harmless only when the origin is 0).  Kinds are inferred from single-assignment locals
+    (nested helper functions see the locals of their parent); anything else has no kind and produces no verdict."""
+    env = {}
+    nodes = [fn.node]
+
+    def kind(e, depth=0):
+        if depth > 12 or e is None:
+            return None
+        if isinstance(e, ast.Attribute) and e.attr in ('pos', '_pos'):
+            return ABS
+        if isinstance(e, ast.Name):
+            return env.get(e.id)
+        if isinstance(e, ast.Subscript):
+            return kind(e.value, depth + 1)
+        if isinstance(e, (ast.ListComp, ast.GeneratorExp)):
+            return kind(e.elt, depth + 1)
+        if isinstance(e, (ast.List, ast.Tuple)) and e.elts:
+            ks = {kind(x, depth + 1) for x in e.elts}
+            return ks.pop() if len(ks) == 1 else None
+        if isinstance(e, ast.Call):
+            f = norm(e.func)
+            if f in ('np.array', 'np.asarray', 'cast', 'complex', 'np.atleast_1d', 'np.squeeze', 'np.ravel') and e.args:
+                return kind(e.args[-1] if f == 'cast' else e.args[0], depth + 1)
+            if f.split('.')[-1] == '_calc_cell_positions':
+                return REL
+            return None
+        if isinstance(e, ast.BinOp) and isinstance(e.op, (ast.Add, ast.Sub)):
+            l, r = kind(e.left, depth + 1), kind(e.right, depth + 1)
+            if isinstance(e.op, ast.Sub):
+                if l == ABS and r == ABS:
+                    return REL
+                if l == ABS and r == REL:
+                    return ABS
+                if l == REL and r == REL:
+                    return REL
+                return None
+            if {l, r} == {ABS, REL}:
+                return ABS
+            if l == REL and r == REL:
+                return REL
+            return None
+        if isinstance(e, ast.BinOp) and isinstance(e.op, (ast.Mult, ast.Div)):
+            l, r = kind(e.left, depth + 1), kind(e.right, depth + 1)
+            if REL in (l, r) and ABS not in (l, r):
+                return REL
+            return None
+        return None
+
+    counts = {}
+    for n in ast.walk(fn.node):
+        if isinstance(n, ast.Name) and isinstance(n.ctx, ast.Store):
+            counts[n.id] = counts.get(n.id, 0) + 1
+    for _ in range(3):
+        for n in ast.walk(fn.node):
+            if isinstance(n, ast.Assign) and len(n.targets) == 1 and isinstance(n.targets[0], ast.Name) and counts.get(n.targets[0].id) == 1:
+                k = kind(n.value)
+                if k:
+                    env[n.targets[0].id] = k
+            elif isinstance(n, (ast.For, ast.comprehension)) and isinstance(n.target, ast.Name) and counts.get(n.target.id, 1) == 1:
+                k = kind(n.iter)
+                if k:
+                    env[n.target.id] = k
+    for n in ast.walk(fn.node):
+        if isinstance(n, ast.BinOp) and isinstance(n.op, ast.Add):
+            l, r = kind(n.left), kind(n.right)
+            if l == ABS and r == ABS:
+                yield n, l, r
+
+
+def _check_affine(ctx: Ctx) -> None:
+    M = ctx.model
+    ctx.rule('C19.i', 'positions are combined affinely: no expression adds two ABSOLUTE positions (`<x>.pos` + `<y>.pos` counts the origin - the '
+                      'cluster / cell centre - twice); offsets from the layout generator are vectors and may be added to one point', floor=20)
+    for path in (SH, CE):
+        mod = M.module(path)
+        for c in mod.classes.values():
+            for f in list(c.methods.values()) + list(c.getters.values()) + list(c.setters.values()):
+                if not any(isinstance(x, ast.Attribute) and x.attr in ('pos', '_pos') for x in ast.walk(f.node)):
+                    continue
+                construct = f.qualname
+                ctx.instance('C19.i', construct)
+                hits = list(affine_sums(f))
+                ctx.obligation('C19.i', construct, not hits, {'point_plus_point': [norm(h[0])[:60] for h in hits]} if hits else None,
+                               nontrivial=any(isinstance(x, ast.BinOp) and isinstance(x.op, ast.Add) for x in ast.walk(f.node)))
+                for node, l, r in hits[:1]:
+                    ctx.violation('C19.i', construct, '`%s` adds two absolute positions: the common origin (the position of the cluster / cell they '
+                                  'are both measured from) is counted twice, so the result is displaced by that origin whenever it is not 0'
+                                  % norm(node)[:90], f.path, node.lineno, operand='point+point')
+
+
 def check(ctx: Ctx) -> None:
     M = ctx.model
     ctx.assume('E1 assumptions; matplotlib Path.contains_point implements polygon containment; a wrapped cell reads '
@@ -76,7 +174,8 @@ def check(ctx: Ctx) -> None:
     from ..commit import check_family
     check_family(ctx, 'C19.e', ['Shape', 'Cluster'], floor=5)
     from ..idioms import check_falsy_zero
-    check_falsy_zero(ctx, 'C19.f', [SH, CE], floor=3)
+    check_falsy_zero(ctx, 'C19.f', [SH, CE], floor=3, plain_float=True)
+    _check_affine(ctx)
     _check_snapshots(ctx)
     _check_back_rotation(ctx)
     _check_add_user(ctx)
